@@ -191,6 +191,21 @@ Definition accept (k : idpack) (s : side) : pyval * side :=
              {| ltab := ltab s; made := made s ++ [k]; cache := update k (n, 1) (cache s); mlog := mlog s |})
   end.
 
+(* An arrival is not atomic when the class of the object is unknown: _unbox finds no proxy, _netref_factory asks the owner
+   for the class (HANDLE_INSPECT) and, WHILE IT WAITS, serves whatever else arrives.  [nested_arrival]: the object k arrives
+   twice; the second arrival is dispatched completely while the first waits for the class; then the first resumes.
+   [recheck] is the generated fact Gen_box.factory_rechecks_cache_after_inspect: does the resuming arrival look at the proxy
+   cache again (and join the proxy that exists, adding its count), or does it go on with what it saw before the wait
+   (make a proxy of its own and overwrite the cache entry).  Result: (proxy of the first arrival, proxy of the second). *)
+Definition store_fresh (k : idpack) (s : side) : pyval * side :=
+  let n := nlen (made s) in
+  (POther (proxy_name n),
+   {| ltab := ltab s; made := made s ++ [k]; cache := update k (n, 1) (cache s); mlog := mlog s |}).
+Definition nested_arrival (recheck : bool) (k : idpack) (r : side) : (pyval * pyval) * side :=
+  let (p2, r1) := accept k r in
+  let (p1, r2) := if recheck then accept k r1 else store_fresh k r1 in
+  ((p1, p2), r2).
+
 Section UnboxS.
 Variable ulad : uladder.
 Variable fok : idpack -> bool.     (* _netref_factory can build a class: builtin name, or the owner answers HANDLE_INSPECT *)
